@@ -6,11 +6,12 @@ import glob
 cfg = {}
 for f in sorted(glob.glob(os.path.join(ROOT, "props", "*", "check.json"))):
     c = json.load(open(f)); cfg[c["id"]] = c
+ready = set(json.load(open(os.path.join(ROOT, "ready.json"))))
 props = [json.loads(l)["id"] for l in open(os.path.join(ROOT, "properties.jsonl"))]
 na = json.load(open(os.path.join(ROOT, "not_applicable.json"))) if os.path.exists(os.path.join(ROOT, "not_applicable.json")) else {}
 checks = []
 for p in props:
-    if p not in cfg or not cfg[p].get("ready"):
+    if p not in cfg or p not in ready:
         continue
     c = cfg[p]
     checks.append({
